@@ -137,6 +137,13 @@ structure TmplUse where
   guard : GF
   deriving DecidableEq, Repr, Inhabited
 
+/-- All declaration sites and all use sites of one identifier (`name` = `TmplName.id`). -/
+structure TmplGroup where
+  name : Nat
+  defs : List TmplDef
+  uses : List TmplUse
+  deriving DecidableEq, Repr, Inhabited
+
 /-- Hash of a Go declaration the hand-written C17 expectations depend on. -/
 structure TmplHash where
   what : String
